@@ -193,3 +193,18 @@ Proof. vm_compute. reflexivity. Qed.
 Example uc16_failed_trial_state :
   mode (s16 (run16 firmware16 (init16 1 1) [E16Firmware; E16Op (Set16 false 2 false); E16Reset; E16Firmware])) = STrying.
 Proof. vm_compute. reflexivity. Qed.
+(* snapd restarted WITHOUT reboot between two writes (event ERestart: the rest of the write list is dropped, the
+   operations are re-entered on the partial state): every theorem above quantifies over ALL event lists, so it covers
+   histories containing ERestart. Excluded sub-class (the event is then ignored, see Boot.restart_ok): a restart inside
+   a kernel setNext that was itself started while kernel_status was still trying, which snapd's ordering
+   (MarkBootSuccessful first after every start) rules out; and, for the code as it is, a restart in the finding window. *)
+Example restart_then_rerun_completes :
+  let m := run20 Grub false true (init20 1 1)
+             [EFirmware false; EInitramfs; EOp (SetK 2 false); EWrite; EWrite; ERestart;
+              EOp Mark; EWrite; EWrite; EOp (SetK 2 false); EWrite; EWrite; EWrite; EReset; EFirmware true; EInitramfs] in
+  ph m = PhRun 2 1.
+Proof. vm_compute. reflexivity. Qed.
+Example restart_drops_the_pending_writes :
+  let m := run20 EnvNS false true (init20 1 1) [EFirmware false; EInitramfs; EOp (SetK 2 false); EWrite; ERestart] in
+  pend m = [] /\ ph m = PhRun 1 1 /\ m_ck (me (st m)) = [1; 2] /\ tkl (st m) = None.
+Proof. vm_compute. auto. Qed.
